@@ -121,6 +121,18 @@ let handle ws = match ws with
          | _ -> Buffer.add_string b "ERR bad-field");
         hx ct ^ " " ^ hx tag ^ " " ^ Buffer.contents b ^ (if !faulted then " ## FAULT" else "")
       with Faulted -> hx ct ^ " " ^ hx tag ^ " " ^ Buffer.contents b ^ " ## FAULT"))
+  | ["pad"; key; iv; aad; ptb; pat; _expect] ->
+    (* chosen plaintext blocks (padding crafted by the generator), CBC without padding, then the MAC *)
+    let key = bytes_of_hex key and iv = bytes_of_hex iv and aad = bytes_of_hex aad and ptb = bytes_of_hex ptb in
+    let pat = (match List.filter_map int_of_string_opt (String.split_on_char ',' pat) with [] -> [16] | l -> l) in
+    if ilen key <> 48 || ilen iv <> 16 || ilen ptb mod 16 <> 0 then "ERR" else
+    let k16 = take 16 key and k32 = drop 16 key in
+    let (_, ct) = cbc_enc_blocks (sm4e k16) (nat (ilen ptb / 16)) iv ptb in
+    let mac = sm3_hmac_spec k32 (aad @ ct) in
+    let st = ct @ mac in
+    let v = (match cbch_decrypt sm3_hmac_init sm3_hmac_update sm3_hmac_finish (sm4d k16) k32 iv aad (chunk pat 0 st) with
+             | Ok _ -> "1" | _ -> "0") in
+    hx ct ^ " " ^ hx mac ^ " " ^ v
   | _ -> "ERR bad-op"
 
 let () = main_loop handle
